@@ -55,6 +55,9 @@ def tasks(tier):
     # state (and commits after convergence) is what the composite hands out
     ts.append(("composite state", "run_included", dict(modname="c03", fname="run_composite", kwargs={}, oid="C15.O8", select_oid="C03.O8",
                                                       why="state variables change ... exactly to the values of the converged iterate: a composite must pass on the new state its history-dependent (first) material computed")))
+    # the mixed (u, p, J) wrappers around a history-dependent material: the last item of gradient() is what the body stores as trial state
+    ts.append(("mixed-wrapper state", "run_included", dict(modname="c03", fname="run_threefield", kwargs=dict(blocks="Fp+FJ+pp+pJ+JJ"), oid="C15.O9", select_oid="C03.O4",
+                                                          why="state variables change ... exactly to the values of the converged iterate: NearlyIncompressible / ThreeFieldVariation must hand out the new state their inner material computed, not the stored one")))
     return ts
 
 
